@@ -1,15 +1,183 @@
-(* C10 lemmas about Model/C10Model.v *)
-From Coq Require Import ZArith List Bool Lia.
+(* C10: umbrella of the C10 proof files + what the invariant says, spelled out,
+   + non-vacuity examples on a concrete reachable world (vacated index, duplicate labels,
+   case variants, membership order different from bit order). *)
+From Coq Require Import ZArith List Bool Lia Permutation Sorted.
 From DV Require Import Model.PyPrims Model.C10Model.
+From DV Require Export Proofs.C10Lists Proofs.C10Inv Proofs.C10Bits Proofs.C10Lookup Proofs.C10Round.
 Import ListNotations.
 Open Scope Z_scope.
 
-Section P.
-Variable lower : lbl -> lbl.
+(* the invariant is exactly these clauses *)
+Lemma Inv_unfold_l (n : ns) :
+  Inv n <->
+  NoDup (taxa n)
+  /\ (forall t, In t (taxa n) <-> exists i, alookup t (acc n) = Some i)
+  /\ (forall t i, alookup t (acc n) = Some i -> 0 <= i < count n)
+  /\ (forall t1 t2 i, alookup t1 (acc n) = Some i -> alookup t2 (acc n) = Some i -> t1 = t2)
+  /\ (forall t i, alookup i (rev n) = Some t <-> alookup t (acc n) = Some i)
+  /\ (forall t m, alookup t (bm n) = Some m ->
+        exists i, alookup t (acc n) = Some i /\ m = Z.shiftl 1 i)
+  /\ 0 <= count n.
+Proof.
+  split.
+  - intros [A B C D E F G]. exact (conj A (conj B (conj C (conj D (conj E (conj F G)))))).
+  - intros (A & B & C & D & E & F & G). constructor; assumption.
+Qed.
 
-Lemma findall_spec_l (w : world) (l : lbl) (cs : option bool) :
-  step lower w (FindAll l cs)
-  = (w, OTaxa (filter (matches lower w (use_cs (w_ns w) cs) l) (taxa (w_ns w)))).
-Proof. reflexivity. Qed.
+Lemma inv_initial_l (mut cs : bool) (lab : list (tid * lbl)) (nxt : tid) :
+  Inv (w_ns (mkW (mkNs [] [] [] 0 [] mut cs) lab nxt))
+  /\ forall t, In t (taxa (w_ns (mkW (mkNs [] [] [] 0 [] mut cs) lab nxt))) -> t < nxt.
+Proof. split; [apply Inv_empty| intros t []]. Qed.
 
-End P.
+Lemma case_world_inv_l (c : case) : Inv (w_ns (case_world c)).
+Proof. apply Inv_empty. Qed.
+
+(* the invariant, spelled out, in every state reachable from an empty namespace *)
+Lemma ops_inv_reach_l (lower : lbl -> lbl) (mut cs : bool) (lab : list (tid * lbl)) (nxt : tid)
+      (ops : list op) :
+  let n := w_ns (run_world lower (mkW (mkNs [] [] [] 0 [] mut cs) lab nxt) ops) in
+  NoDup (taxa n)
+  /\ (forall t, In t (taxa n) <-> exists i, alookup t (acc n) = Some i)
+  /\ (forall t i, alookup t (acc n) = Some i -> 0 <= i < count n)
+  /\ (forall t1 t2 i, alookup t1 (acc n) = Some i -> alookup t2 (acc n) = Some i -> t1 = t2)
+  /\ (forall t i, alookup i (rev n) = Some t <-> alookup t (acc n) = Some i)
+  /\ (forall t m, alookup t (bm n) = Some m ->
+        exists i, alookup t (acc n) = Some i /\ m = Z.shiftl 1 i)
+  /\ 0 <= count n.
+Proof. intros n. apply Inv_unfold_l. apply ops_inv_l. apply Inv_empty. Qed.
+
+Lemma ops_wf_unfold_l (lower : lbl -> lbl) (w : world) :
+  (ops_wf lower w [] <-> True)
+  /\ forall o r, ops_wf lower w (o :: r) <->
+       (match o with AddTaxon t => t < w_next w | _ => True end)
+       /\ ops_wf lower (fst (step lower w o)) r.
+Proof. split; [reflexivity| intros o r; reflexivity]. Qed.
+
+Lemma trace_unfold_l (lower : lbl -> lbl) (w : world) :
+  trace lower w [] = [w]
+  /\ forall o r, trace lower w (o :: r) = w :: trace lower (fst (step lower w o)) r.
+Proof. split; reflexivity. Qed.
+
+(* ------------------------------------------------------------------ *)
+(* Non-vacuity: a concrete history.  Label ids: 0="A" 1="B" 2="a" 3="b" 7="zz". *)
+
+Definition ex_lower (l : lbl) : lbl := if l =? 0 then 2 else if l =? 1 then 3 else l.
+Definition ex_w0 : world := mkW ns_empty [(0, 1)] 1.     (* one free Taxon object "B" *)
+Definition ex_ops1 : list op := [NewTaxon 0; NewTaxon 2; NewTaxon 2].
+Definition ex_ops2 : list op :=
+  [AddTaxon 0; NewTaxon 3; RemoveTaxon 2; NewTaxon 2; Sort false; TaxonBitmask 3; Relabel 4 0].
+Definition ex_w1 : world := run_world ex_lower ex_w0 ex_ops1.
+Definition ex_w : world := run_world ex_lower ex_w1 ex_ops2.
+
+(* members in order with their accession index: index 1 is vacated, order <> bit order *)
+Example ex_state : observe ex_w = [(1, 0); (0, 3); (3, 2); (5, 5); (4, 4)]
+  /\ map (label_of ex_w) (taxa (w_ns ex_w)) = [0; 1; 2; 2; 0].
+Proof. vm_compute. split; reflexivity. Qed.
+
+Example ex_w0_winv : WInv ex_w0.
+Proof. split; [apply Inv_empty| intros t []]. Qed.
+
+Example ex_ops_wf : ops_wf ex_lower ex_w0 (ex_ops1 ++ ex_ops2).
+Proof. vm_compute. repeat split. Qed.
+
+Example ex_w_reached : ex_w = run_world ex_lower ex_w0 (ex_ops1 ++ ex_ops2).
+Proof. vm_compute. reflexivity. Qed.
+
+Example ex_w_winv : WInv ex_w.
+Proof. rewrite ex_w_reached. apply ops_winv_l; [apply ex_w0_winv| apply ex_ops_wf]. Qed.
+
+Example ex_w1_winv : WInv ex_w1.
+Proof.
+  apply ops_winv_l; [apply ex_w0_winv|]. vm_compute. repeat split.
+Qed.
+
+(* hypotheses of bit_stable_run hold for taxon 3 (index 2) over ex_ops2, which adds,
+   removes another taxon, sorts, memoises a bitmask and relabels *)
+Example ex_bit_stable_hyps :
+  WInv ex_w1 /\ ops_wf ex_lower ex_w1 ex_ops2
+  /\ (forall w', In w' (trace ex_lower ex_w1 ex_ops2) -> In 3 (taxa (w_ns w')))
+  /\ alookup 3 (acc (w_ns ex_w1)) = Some 2.
+Proof.
+  split; [apply ex_w1_winv|]. split; [vm_compute; repeat split|]. split; [|reflexivity].
+  intros w' H. vm_compute in H.
+  repeat (destruct H as [H|H]; [subst w'; vm_compute; repeat (first [left; reflexivity | right])|]).
+  contradiction.
+Qed.
+
+Example ex_bit_stable_concl :
+  alookup 3 (acc (w_ns ex_w)) = Some 2
+  /\ exists n', taxon_bitmask (w_ns ex_w) 3 = Ok (n', Z.shiftl 1 2).
+Proof.
+  destruct ex_bit_stable_hyps as (W & F & M & A).
+  apply (bit_stable_run_l ex_lower ex_w1 ex_ops2 3 2 W F M A ex_w).
+  vm_compute. do 7 right. left. reflexivity.
+Qed.
+
+(* lookups: case-insensitive "A" matches A, a, a, A(relabelled) in membership order;
+   case-sensitive "a" matches the two duplicates; "zz" matches nothing *)
+Example ex_lookups :
+  lookup_all ex_lower ex_w 0 None = [1; 3; 5; 4]
+  /\ lookup_all ex_lower ex_w 2 (Some true) = [3; 5]
+  /\ lookup_all ex_lower ex_w 7 None = []
+  /\ is_mut (w_ns ex_w) = true.
+Proof. vm_compute. repeat split; reflexivity. Qed.
+
+Example ex_require_existing : step ex_lower ex_w (RequireTaxon 2 (Some true)) = (ex_w, OTax (Some 3)).
+Proof.
+  destruct (require_taxon_spec_l ex_lower ex_w 2 (Some true)) as (H & _). apply (H 3 [5]). reflexivity.
+Qed.
+
+Example ex_require_new :
+  exists w', step ex_lower ex_w (RequireTaxon 7 None) = (w', OTax (Some 6))
+    /\ observe w' = [(1, 0); (0, 3); (3, 2); (5, 5); (4, 4); (6, 6)].
+Proof. eexists. split; vm_compute; reflexivity. Qed.
+
+(* removal by label: first match only vs. all matches *)
+Example ex_remove_first :
+  observe (fst (step ex_lower ex_w (RemoveLabel 0 (Some false) true))) = [(0, 3); (3, 2); (5, 5); (4, 4)]
+  /\ observe (fst (step ex_lower ex_w (RemoveLabel 0 (Some false) false))) = [(0, 3)].
+Proof. vm_compute. split; reflexivity. Qed.
+
+(* Newick rendering: m = 0b000101 names the members with bits 0 and 2 (labels A, a),
+   although they sit at list positions 0 and 2 only by accident of this order; the
+   right group lists the others in membership order *)
+Example ex_newick_hyps : 5 <> 0 /\ 5 <> all_taxa_bitmask (w_ns ex_w).
+Proof. split; vm_compute; discriminate. Qed.
+
+Example ex_newick : snd (step ex_lower ex_w (NewickGroups 5)) = OGroups [0; 2] [1; 2; 0]
+  /\ snd (step ex_lower ex_w (NewickGroups 40)) = OGroups [1; 2] [0; 2; 0].
+Proof. vm_compute. split; reflexivity. Qed.
+
+(* round trip on the duplicate-free member list [4; 1; 3]: mask 0b10101, back: by bit *)
+Example ex_roundtrip_hyps : NoDup [4; 1; 3] /\ incl [4; 1; 3] (taxa (w_ns ex_w)).
+Proof.
+  split.
+  - repeat constructor; simpl; intuition discriminate.
+  - intros x H. vm_compute. simpl in H. intuition.
+Qed.
+
+Example ex_roundtrip :
+  exists w1, step ex_lower ex_w (TaxaBitmask [4; 1; 3]) = (w1, OInt 21)
+             /\ step ex_lower w1 (BitmaskTaxa 21) = (w1, OTaxa [1; 3; 4]).
+Proof. eexists. split; vm_compute; reflexivity. Qed.
+
+(* a vacated bit is a KeyError, not a wrong taxon *)
+Example ex_vacated_bit : snd (step ex_lower ex_w (BitmaskTaxa 2)) = OErr KeyErr.
+Proof. vm_compute. reflexivity. Qed.
+
+(* immutable namespace *)
+Example ex_immutable :
+  let w := fst (step ex_lower ex_w (SetMutable false)) in
+  is_mut (w_ns w) = false
+  /\ step ex_lower w (RequireTaxon 7 None) = (w, OErr TypeErr)
+  /\ step ex_lower w (NewTaxon 7) = (w, OErr TypeErr)
+  /\ observe (fst (step ex_lower w (RemoveTaxon 0))) = [(1, 0); (3, 2); (5, 5); (4, 4)].
+Proof. vm_compute. repeat split; reflexivity. Qed.
+
+(* deep copy: fresh identities, same bits, same labels *)
+Example ex_deepcopy :
+  let w' := fst (step ex_lower ex_w DeepCopy) in
+  observe w' = [(6, 0); (7, 3); (8, 2); (9, 5); (10, 4)]
+  /\ map (label_of w') (taxa (w_ns w')) = [0; 1; 2; 2; 0]
+  /\ map (dc_ren ex_w) (taxa (w_ns ex_w)) = [6; 7; 8; 9; 10].
+Proof. vm_compute. repeat split; reflexivity. Qed.
